@@ -287,6 +287,29 @@ def c12_r1(ctx: Ctx, rule):
             res.fail(rule.id, "alias-store-element::%s" % s.key, ctx.loc(s.func, s.node),
                      "%s fills the attribute map with %s: the per-attribute sets of the source are shared, not copied" % (short(s.func), s.text[:60]),
                      "c = r.copy(); c.add_attributes({existing_name: new_value}) also changes r")
+    # copy.copy(obj) of an object that owns mutable containers copies the references to them: the "copy" and the original share
+    # every one of those containers (for a dict subclass only the dict items are copied, the instance fields are shared)
+    n_shallow = 0
+    for q, fi in ctx.p.functions.items():
+        if fi.module.startswith("scripts.") or isinstance(fi.node, ast.Lambda):
+            continue
+        for c in calls_in(fi.node):
+            r = ctx.p.resolve_dotted(fi.module, c.func) if dotted(c.func) else None
+            if not (r and r[0] == "ext" and r[1] == "copy.copy" and c.args):
+                continue
+            n_shallow += 1
+            a = c.args[0]
+            cls = fi.cls if isinstance(a, ast.Name) and a.id == "self" else None
+            if cls is None:
+                res.ob("%s: %s: the class of the argument is not known statically: not judged" % (short(q), norm(c)[:50]), nontrivial=False)
+                continue
+            shared = sorted(f.name for k in ctx.p.mro(cls) if k in ctx.p.classes for f in field_table(ctx, k).values() if f.kind == "OWNED")
+            res.ob("%s: %s makes a shallow copy of a %s, which owns the containers %s" % (short(q), norm(c)[:40], cls.rsplit(".", 1)[1], shared))
+            if shared:
+                res.fail(rule.id, "shallow-copy::%s" % q, ctx.loc(q, c),
+                         "%s returns copy.copy(self): the new %s shares %s with the original" % (short(q), cls.rsplit(".", 1)[1], ", ".join(shared)),
+                         "register a namespace (or add a record) on the copy: it appears in the original too")
+    res.ob("copy.copy() calls in the package: %d" % n_shallow, nontrivial=False)
     return res
 
 
@@ -1530,7 +1553,7 @@ def c09_r13(ctx: Ctx, rule):
     (b) A bundle identifier travels between containers as the QualifiedName object: it is never passed on as str(identifier),
     whose prefix would be resolved again in the receiving container's scope."""
     res = RuleResult()
-    q = RECORD + "._auto_literal_conversion"
+    q = RECORD + "." + ctx.literal_converter()
     if q not in ctx.p.functions:
         raise AnalysisError("anchor vanished: function %s" % q)
     n = 0
@@ -1576,3 +1599,147 @@ for _p, _r, _d in (("C06", "C06.R14", "an absent optional argument is printed as
 
 RULES.setdefault("C12", []).append(Rule("C12.R10", "update() leaves its argument unchanged and walks all of it (shared with C09.R4)", 5, c09_r4, "F-OWN",
                                         "d1.update(d2) never writes into d2"))
+
+
+# ===================================================================================== C08.R15 / C18.R12: the identifier index is a defaultdict
+def index_size_rule(ctx: Ctx, rule):
+    """ProvBundle's identifier index is a defaultdict(list): every lookup of an absent identifier (get_record) leaves an empty
+    entry behind.  Its size, its key set and key membership are therefore no evidence of records: nothing may count the index
+    (`len(index)`), test it for membership without looking at the entry, or take its truth value.  Walking `.items()` / `.values()`
+    and then the lists is fine (an empty list contributes nothing).  Vacuous if the index is not created on demand."""
+    res = RuleResult()
+    rl, ix, ft = bundle_slots(ctx)
+    on_demand = ft[ix].container.startswith("defaultdict")
+    res.ob("identifier index `%s` is created as %s: lookups can add empty entries: %s" % (ix, ft[ix].container[:30], on_demand))
+    if not on_demand:
+        return res
+    n_uses = 0
+    for q, fi in ctx.p.functions.items():
+        if fi.module.startswith("scripts.") or isinstance(fi.node, ast.Lambda):
+            continue
+        parents = None
+        for n in walk_function(fi.node):
+            if not (isinstance(n, ast.Attribute) and n.attr == ix and isinstance(n.ctx, ast.Load)):
+                continue
+            n_uses += 1
+            if parents is None:
+                parents = {}
+                for a in ast.walk(fi.node):
+                    for ch in ast.iter_child_nodes(a):
+                        parents[id(ch)] = a
+            p = parents.get(id(n))
+            bad = None
+            if isinstance(p, ast.Call) and call_name(p) in ("len", "bool", "any", "all", "set", "list", "sorted", "tuple", "frozenset", "iter") and p.args and p.args[0] is n:
+                bad = "%s(..) of the index" % call_name(p)
+            elif isinstance(p, ast.Compare) and any(c is n for c in p.comparators) and any(isinstance(o, (ast.In, ast.NotIn)) for o in p.ops):
+                # `k in index and index[k]` is fine: the entry is looked at
+                entry = "%s[%s]" % (norm(n), norm(p.left))
+                pp = parents.get(id(p))
+                conj = pp.values if isinstance(pp, ast.BoolOp) and isinstance(pp.op, ast.And) else []
+                if not any(norm(o) in (entry, "len(%s)" % entry, "len(%s) > 0" % entry) for o in conj if o is not p):
+                    bad = "membership test `%s`" % norm(p)[:40]
+            elif isinstance(p, (ast.If, ast.While, ast.IfExp)) and p.test is n or (isinstance(p, ast.UnaryOp) and isinstance(p.op, ast.Not)) or (isinstance(p, ast.BoolOp)):
+                bad = "truth value of the index"
+            elif isinstance(p, (ast.For, ast.comprehension)) and p.iter is n:
+                bad = "iteration over the keys of the index"
+            elif isinstance(p, ast.Attribute) and p.attr == "keys":
+                bad = "keys() of the index"
+            res.ob("%s: use of the index `%s`: %s" % (short(q) if q.count(".") > 2 else q, norm(p)[:50] if p is not None else norm(n), bad or "by entry"))
+            if bad:
+                res.fail(rule.id, "index-size-as-evidence::%s" % q, ctx.loc(q, n),
+                         "%s relies on %s, but the index gains an empty entry for every identifier that was merely looked up" % (short(q) if q.count(".") > 2 else q, bad),
+                         "doc.get_record('ex:absent') once, then unified() / the lookup: the count of index entries no longer equals the number of identifiers in use")
+    if not n_uses:
+        raise AnalysisError("no read of the identifier index %s found" % ix)
+    return res
+
+
+RULES.setdefault("C08", []).append(Rule("C08.R15", "the identifier index is created on demand: its size, key set and key membership are never taken as evidence of records", 2, index_size_rule, "F-PATH",
+                                        "unified() merges what has to be merged whatever identifiers were looked up before"))
+RULES.setdefault("C18", []).append(Rule("C18.R12", "the identifier index is created on demand: its size and key membership are no evidence of records (shared with C08.R15)", 2, index_size_rule, "F-PATH",
+                                        "a failed lookup does not change what later lookups and unified() see"))
+
+
+# ===================================================================================== C08.R16: originals pass through unified() by identity
+def c08_r16(ctx: Ctx, rule):
+    """Records compare and hash by content.  unified() keeps records without identifier "as they are", and as many of them as there
+    were: in the loop that emits the result, a set (or dict) that suppresses repeats may only ever hold *merged* records - values
+    read from the merge map - never the records of the source list themselves."""
+    res = RuleResult()
+    uq = unified_helper(ctx)
+    f = ufn(ctx, uq, keep=())
+    rl, ix, ft = bundle_slots(ctx)
+    loops = [lp for lp in walk_function(f.node) if isinstance(lp, ast.For) and isinstance(lp.target, ast.Name) and any(isinstance(x, ast.Attribute) and x.attr == rl for x in ast.walk(lp.iter))
+             and any(isinstance(c, ast.Call) and call_name(c) in ("append", "add", "extend") for b in lp.body for c in ast.walk(b))]
+    if not loops:
+        res.ob("%s: no loop over the record list that emits records (the result is built another way): not judged" % short(uq), nontrivial=False)
+        return res
+    for lp in loops:
+        v = lp.target.id
+        # names that can hold the loop's own record: v, and locals assigned from an expression in which v appears outside a
+        # subscript / lookup key position  (x = d.get(v, v); x = v if c else m)
+        may_be_original = {v}
+        changed = True
+        while changed:
+            changed = False
+            for a in [x for b in lp.body for x in ast.walk(b) if isinstance(x, ast.Assign)]:
+                tg = {t.id for t in a.targets if isinstance(t, ast.Name)}
+                if not tg or tg <= may_be_original and False:
+                    continue
+                val = a.value
+                flows = False
+                if isinstance(val, ast.Name) and val.id in may_be_original:
+                    flows = True
+                elif isinstance(val, ast.IfExp) and any(isinstance(x, ast.Name) and x.id in may_be_original for x in (val.body, val.orelse)):
+                    flows = True
+                elif isinstance(val, ast.Call) and call_name(val) in ("get", "setdefault", "pop") and len(val.args) == 2 and isinstance(val.args[1], ast.Name) and val.args[1].id in may_be_original:
+                    flows = True
+                elif isinstance(val, ast.BoolOp) and any(isinstance(x, ast.Name) and x.id in may_be_original for x in val.values):
+                    flows = True
+                if flows and not tg <= may_be_original:
+                    may_be_original |= tg
+                    changed = True
+        bad = []
+        for b in lp.body:
+            for x in ast.walk(b):
+                if isinstance(x, ast.Call) and isinstance(x.func, ast.Attribute) and x.func.attr == "add" and x.args and isinstance(x.args[0], ast.Name) and x.args[0].id in may_be_original:
+                    # adding to the *result* (a list has append; a set named as result would be caught as well, rightly)
+                    bad.append(x)
+        # a rebinding of the loop variable itself to a merged record under a test is fine only if the set never receives originals:
+        # `record = merged_records[record]` inside `if record in merged_records:` makes v merged there; handle by excluding adds that
+        # sit under a membership test of the merge map on that name
+        def under_merge_test(node, name):
+            for t in [y for b in lp.body for y in ast.walk(b) if isinstance(y, ast.If)]:
+                if any(z is node for bb in t.body for z in ast.walk(bb)):
+                    for c in ast.walk(t.test):
+                        if isinstance(c, ast.Compare) and len(c.ops) == 1 and isinstance(c.ops[0], ast.In) and isinstance(c.left, ast.Name) and c.left.id in (name, v):
+                            return True
+            return False
+        bad = [x for x in bad if not under_merge_test(x, x.args[0].id)]
+        res.ob("%s: loop over %s: names that can hold a source record: %s; repeat-suppressing sets that receive one: %d" % (short(uq), rl, sorted(may_be_original), len(bad)))
+        for x in bad[:1]:
+            res.fail(rule.id, "originals-deduplicated::%s" % norm(x)[:40], ctx.loc(uq, x),
+                     "%s puts records of the source list themselves into a set (%s): records compare by content, so a second, equal record without identifier is dropped" % (short(uq), norm(x)[:40]),
+                     "two equal used(a, e) statements without identifier (e.g. contributed by update() from two sources): unified() keeps one; ex:n=1 and ex:n=True collapse as well")
+    return res
+
+
+RULES.setdefault("C08", []).append(Rule("C08.R16", "records of the source pass through unified() by identity: repeat suppression only ever looks at merged records", 1, c08_r16, "F-PATH",
+                                        "records without identifier are kept as they are, and as many as there were"))
+
+
+# ===================================================================================== C06.R15 / C09.R14: nothing is remembered between two calls
+def c06_r15(ctx: Ctx, rule):
+    return c13_r1(ctx, rule, only=lambda q, label: label in ("ProvBundle.get_provn", "ProvRecord.get_provn") or label.startswith("serialize(format='provn'"))
+
+
+RULES.setdefault("C06", []).append(Rule("C06.R15", "printing PROV-N leaves no trace on the document: nothing computed for one text is kept for the next (C13.R1 restricted to get_provn)", 2, c06_r15, "F-OWN",
+                                        "the prefix declarations printed are those in force when the text is produced, not those of an earlier call"))
+
+
+def c09_r14(ctx: Ctx, rule):
+    return c13_r1(ctx, rule, only=lambda q, label: label in ("ProvDocument.flattened",))
+
+
+RULES.setdefault("C09", []).append(Rule("C09.R14", "flattened() leaves no trace on the document: its result is built from the current records at every call (C13.R1 restricted to flattened)", 1, c09_r14, "F-OWN",
+                                        "records added to a bundle, or attributes added to a bundled record, after a first flattened() appear in the next one"))
